@@ -185,7 +185,11 @@ def time_at_p_or_q(self, p, q, H, M):
     self._time_pattern()
     self._reg.pc = 1
     self._time_pattern()
-    return (first, self._reg.time.match(H, M), p.match(H, M), q.match(H, M))
+    again = self._reg.time.match(H, M)
+    # a NEXT statement `time at p` (the same macro, hence the same pattern object, without alternatives)
+    self._reg.pc = 0
+    self._time_pattern()
+    return (first, again, p.match(H, M), q.match(H, M), self._reg.time.match(H, M))
 ''')
 def _setup(b, case):
     d = _two_patterns(b, case)
@@ -197,6 +201,7 @@ c.ensures('waits-for-exactly-the-union', 'iff(result[0], %s or %s)' % (DEN_P, DE
 c.ensures('same-when-executed-again', 'iff(result[1], result[0])')
 c.ensures('first-operand-unchanged', 'iff(result[2], %s)' % DEN_P)
 c.ensures('second-operand-unchanged', 'iff(result[3], %s)' % DEN_Q)
+c.ensures('a-following-time-at-p-waits-for-p-alone', 'iff(result[4], %s)' % DEN_P)
 
 
 # ---- three alternatives: a time matched only by the third one is matched (any number follows by the same clause per alternative)
@@ -239,3 +244,16 @@ for text, valid, hit, miss in (('12:30', True, (12, 30), (12, 31)), ('*:15', Tru
         c.ensures('the-pattern-it-spells', "result.match(%d, %d) and not result.match(%d, %d) and self._error_output == ''" % (hit + miss))
     else:
         c.ensures('no-constant-and-a-message', "result is None and self._error_output != ''")
+
+
+# ---- the literal reader on numerals: an integer numeral is that integer (exactly, however long), a numeral with a
+#      decimal point is a float - also 1.0 (print 1.0 writes 1.0, print 1 writes 1)
+for text, kind, val in (('3', 'int', 3), ('0', 'int', 0), ('007', 'int', 7), ('9007199254740993', 'int', 9007199254740993),
+                        ('1.0', 'float', 1.0), ('2.5', 'float', 2.5), ('.5', 'float', 0.5), ('10.', None, None), ('120.00', 'float', 120.0)):
+    if kind is None:
+        continue
+    c = contract('bardolph/parser/parse.py', 'Parser._current_literal', serves=['C19', 'C02', 'C06', 'C01'], name='Parser._current_literal[NUMBER %s]' % text)
+    def _setup(b, case, text=text):
+        return {'self': PL.parser(b, first_token=PL.concrete_token(b.I, 'NUMBER', text))}
+    c.setup(_setup)
+    c.ensures('the-number-it-spells-as-the-kind-it-spells', "result == %r and typename(result) == '%s' and self._error_output == ''" % (val, kind))
